@@ -247,6 +247,19 @@ class SymSeq(object):
             raise ValueError('subsection not found')
         return r
 
+    def isdigit(self):
+        """bytes.isdigit(): non-empty and every byte an ASCII digit (forks per symbolic byte).  (SymStr overrides it.)"""
+        it = self._get()
+        if not it:
+            return False
+        for x in it:
+            if isinstance(x, _int):
+                if not 48 <= x <= 57:
+                    return False
+            elif not bool(SymBool(_range(SymInt.lift(x), 48, 57))):
+                return False
+        return True
+
     def startswith(self, prefix, start=0):
         if isinstance(prefix, tuple):
             for p in prefix:
@@ -608,12 +621,17 @@ class SymStr(SymSeq):
             if isinstance(x, _int):
                 out.append(ord(chr(x).lower()) if len(chr(x).lower()) == 1 else _limit('lower() of %r' % chr(x)))
             else:
-                # ASCII and U+FFFD only (what ascii/replace decoding can produce); anything else: limit
                 ok = z3.Or(z3.ULT(x.e, bvv(128, x.w)), x.e == bvv(0xFFFD, x.w)) \
                     if x.w > 7 else z3.BoolVal(True)
-                if not Ctx.cur.branch(ok):
-                    raise EngineLimit('str.lower() on symbolic non-ASCII code point')
-                out.append(SymInt(z3.If(_range(x, 65, 90), x.e + bvv(32, x.w), x.e), x.w))
+                if Ctx.cur.branch(ok):
+                    # ASCII and U+FFFD (what ascii/replace decoding can produce)
+                    out.append(SymInt(z3.If(_range(x, 65, 90), x.e + bvv(32, x.w), x.e), x.w))
+                elif x.w >= 9 and Ctx.cur.branch(x.e == bvv(0x130, x.w)):
+                    out += [0x69, 0x307]          # the one code point whose lower() is two characters
+                else:
+                    # any other code point: CPython's own case mapping as a table of deltas (lower(cp) - cp mod 2^21)
+                    d = uni_table('lower-delta', _lower_delta, 21, x)
+                    out.append(SymInt(z3.Extract(20, 0, x.at(21) + d.e), 21))
         return mk_str(out)
 
     def upper(self):
@@ -775,6 +793,104 @@ def utf8_encode_forking(cps, errors='strict'):
     return mk_bytes(out)
 
 
+def _cmp_ge(x, v):
+    return x >= v if isinstance(x, _int) else bool(SymInt.lift(x) >= v)
+
+
+def _cmp_le(x, v):
+    return x <= v if isinstance(x, _int) else bool(SymInt.lift(x) <= v)
+
+
+def _cmp_eq(x, v):
+    return x == v if isinstance(x, _int) else bool(SymInt.lift(x) == v)
+
+
+def utf8_decode_lenient_items(items, errors, on_event=None):
+    """CPython's bytes.decode('utf-8', 'replace'|'ignore') as plain Python over the items (each comparison on a symbolic byte forks):
+    an ill-formed sequence is replaced by ONE U+FFFD per maximal well-formed prefix (Unicode "maximal subpart" practice, which
+    CPython follows).  on_event() is called after every non-ASCII character / replacement."""
+    out = []
+    i, n = 0, len(items)
+
+    def inr(k, lo, hi):
+        return k < n and _cmp_ge(items[k], lo) and _cmp_le(items[k], hi)
+
+    def bits(x, m):
+        return x & m
+
+    while i < n:
+        b = items[i]
+        if not _cmp_ge(b, 0x80):
+            out.append(b)
+            i += 1
+            continue
+        cp = None
+        used = 1
+        if inr(i, 0xC2, 0xDF):
+            if inr(i + 1, 0x80, 0xBF):
+                cp = (bits(b, 0x1F) << 6) | bits(items[i + 1], 0x3F)
+                used = 2
+        elif inr(i, 0xE0, 0xEF):
+            lo = 0xA0 if _cmp_eq(b, 0xE0) else 0x80
+            hi = 0x9F if _cmp_eq(b, 0xED) else 0xBF
+            if inr(i + 1, lo, hi):
+                used = 2
+                if inr(i + 2, 0x80, 0xBF):
+                    cp = (bits(b, 0x0F) << 12) | (bits(items[i + 1], 0x3F) << 6) | bits(items[i + 2], 0x3F)
+                    used = 3
+        elif inr(i, 0xF0, 0xF4):
+            lo = 0x90 if _cmp_eq(b, 0xF0) else 0x80
+            hi = 0x8F if _cmp_eq(b, 0xF4) else 0xBF
+            if inr(i + 1, lo, hi):
+                used = 2
+                if inr(i + 2, 0x80, 0xBF):
+                    used = 3
+                    if inr(i + 3, 0x80, 0xBF):
+                        cp = ((bits(b, 0x07) << 18) | (bits(items[i + 1], 0x3F) << 12) | (bits(items[i + 2], 0x3F) << 6)
+                              | bits(items[i + 3], 0x3F))
+                        used = 4
+        if cp is not None:
+            out.append(cp)
+        elif errors == 'replace':
+            out.append(0xFFFD)
+        i += used
+        if on_event is not None:
+            on_event(i)
+    return out
+
+
+LENIENT_EVENTS = [1]      # bound: non-ASCII characters / replacements made of symbolic bytes per decode call
+
+
+def utf8_decode_lenient(items, errors):
+    """decode(errors='replace'|'ignore') of bytes with symbolic holes.  One branch covers "every symbolic byte is ASCII" (any length);
+    otherwise the decoder forks byte by byte, and - a stated BOUND - after LENIENT_EVENTS non-ASCII characters/replacements the remaining
+    symbolic bytes are assumed ASCII (inputs with more are outside the claim; reached only by code that decodes leniently at all)."""
+    sym = [x for x in items if not isinstance(x, _int)]
+    if Ctx.cur.branch(z3.And([z3.ULT(x.at(8), bvv(128, 8)) for x in sym])):
+        out, run = [], []
+        for x in items:
+            if isinstance(x, _int):
+                run.append(x)
+            else:
+                out += [ord(ch) for ch in _bytes(run).decode('utf-8', errors)]
+                run = []
+                out.append(x)
+        out += [ord(ch) for ch in _bytes(run).decode('utf-8', errors)]
+        return mk_str(out)
+    seen = [0]
+
+    def on_event(pos):
+        seen[0] += 1
+        if seen[0] == LENIENT_EVENTS[0]:
+            rest = [x for x in items[pos:] if not isinstance(x, _int)]
+            if rest:
+                Ctx.cur.notes.setdefault('bounds', []).append('utf-8 lenient decode: at most %d non-ASCII characters among symbolic bytes'
+                                                              % LENIENT_EVENTS[0])
+                Ctx.cur.assume(z3.And([z3.ULT(x.at(8), bvv(128, 8)) for x in rest]))
+    return mk_str(utf8_decode_lenient_items(items, errors, on_event))
+
+
 def decode_items(items, encoding='utf-8', errors='strict'):
     enc = encoding.lower().replace('_', '-')
     if _concrete(items):
@@ -787,6 +903,8 @@ def decode_items(items, encoding='utf-8', errors='strict'):
                 return decode_items(items[3:], 'utf-8', errors)
         return decode_items(items, 'utf-8', errors)
     if enc in ('utf-8', 'utf8'):
+        if errors in ('replace', 'ignore'):
+            return utf8_decode_lenient(items, errors)
         if errors != 'strict':
             raise EngineLimit('utf-8 decode with errors=%r on symbolic bytes' % errors)
         if Ctx.cur.branch(utf8_valid_term(items)):
@@ -844,6 +962,41 @@ def ite_table(values, idx):
 
 
 _ITE_CACHE = {}
+_UNI_CACHE = {}
+
+
+def uni_table(name, fn, vw, x):
+    """fn(code point) -> int (< 2**vw) for EVERY code point 0..0x10FFFF, as a balanced ITE tree over runs of equal values, indexed by
+    the symbolic code point x (cached per name; built once per process from CPython's own unicode database)."""
+    ent = _UNI_CACHE.get(name)
+    if ent is None:
+        runs = []
+        for cp in range(0x110000):
+            v = fn(cp)
+            if not runs or runs[-1][1] != v:
+                runs.append((cp, v))
+        ph = z3.BitVec('uni_table_idx!' + name, 21)
+
+        def rec(lo, hi):
+            if hi - lo == 1:
+                return bvv(runs[lo][1], vw)
+            mid = (lo + hi) // 2
+            return z3.If(z3.ULT(ph, bvv(runs[mid][0], 21)), rec(lo, mid), rec(mid, hi))
+        ent = _UNI_CACHE[name] = (rec(0, len(runs)), ph, len(runs))
+    tree, ph, _n = ent
+    if x.w > 21:
+        raise EngineLimit('code point wider than 21 bits')
+    return SymInt(z3.substitute(tree, (ph, x.at(21))), vw)
+
+
+def _lower_delta(cp):
+    low = chr(cp).lower()
+    return (ord(low) - cp) & 0x1FFFFF if len(low) == 1 else 0
+
+
+def _decimal_value(cp):
+    import unicodedata
+    return unicodedata.decimal(chr(cp), 15)
 
 
 class RowSel(object):
@@ -1008,7 +1161,12 @@ def parse_int(seq, is_str):
                 # non-ASCII unicode digits are accepted by int(str): only U+FFFD/ASCII can occur after
                 # ascii/replace decoding; anything else is beyond the model
                 if not Ctx.cur.branch(z3.Or(z3.ULT(x.e, bvv(128, x.w)), x.e == bvv(0xFFFD, x.w))):
-                    raise EngineLimit('int() of symbolic non-ASCII text')
+                    # int(str) accepts every Unicode decimal digit (category Nd): value from CPython's unicode database
+                    dv = uni_table('decimal-value', _decimal_value, 4, x)
+                    if bool(dv <= 9):
+                        prev_us = False
+                        val = val * 10 + dv
+                        continue
             raise ValueError('invalid literal for int() with base 10 (symbolic)')
         prev_us = False
         d = (SymInt.lift(x) - 48) if not isinstance(x, _int) else x - 48
